@@ -199,7 +199,8 @@ def _write_history(path, seq, meta, upto=None, rec=None):
                 rec.cls('same-result-object-written-twice')
         if 'S' in k and i > 0:
             r.source = records[i - 1].source
-            r.source.valid[2] = 0 if r.source.valid[2] != 0 else 1
+            j_ = min(2, len(r.source.valid) - 1)          # (the previous record's source may have a single band)
+            r.source.valid[j_] = 0 if r.source.valid[j_] != 0 else 1
             if rec is not None:
                 rec.cls('same-source-object-changed-in-place')
         written.append(canon(r))
